@@ -1,2 +1,188 @@
-// Package c03: (not built yet)
+// Package c03: every contact change is announced by an event that reproduces it.
 package c03
+
+import (
+	"encoding/json"
+	"fmt"
+	"strings"
+	"time"
+
+	"verif/checks/cf"
+	"verif/checks/sm"
+	"verif/mc"
+)
+
+// ---------------------------------------------------------------------------------------------
+// Space A: modifiers applied directly
+// ---------------------------------------------------------------------------------------------
+
+func modClass(m cf.J) string {
+	t, _ := m["type"].(string)
+	if mod, ok := m["modification"].(string); ok {
+		return t + ":" + mod
+	}
+	return t
+}
+
+func judgeDirect(c *mc.Ctx, w *cf.World, d *cf.Direct, count bool) []sm.Problem {
+	var ps []sm.Problem
+	add := func(key, what string, args ...any) {
+		ps = append(ps, sm.Problem{Key: key, What: fmt.Sprintf(what, args...)})
+	}
+	r := w.Run(d)
+	mcl := modClass(d.Modifier)
+	if r.Panic != "" {
+		add("direct:panic:"+mcl+":"+mc.PanicSite(r.Panic), "modifier application panicked: %s", r.Panic)
+		return ps
+	}
+	if r.Err != nil {
+		add("harness:"+mc.Hash(r.Err.Error()), "harness: %v", r.Err)
+		return ps
+	}
+	if r.NoModifier {
+		return nil
+	}
+	before, _ := cf.ViewOf(r.Before)
+	after, _ := cf.ViewOf(r.After)
+	after2, _ := cf.ViewOf(r.After2)
+	ref := before.Clone()
+	emitted := false
+	for i, ev := range r.Events {
+		if cf.IsChangeEvent(r.EventTypes[i]) {
+			emitted = true
+		}
+		if _, err := ref.ApplyEvent(ev, ""); err != nil {
+			add("harness:apply-event", "cannot apply event %s: %v", ev, err)
+		}
+	}
+	changed := cf.Diff(before, after) != ""
+	if count {
+		c.Outcome(fmt.Sprintf("direct %s modified=%v changed=%v", mcl, r.Modified, changed))
+		if changed {
+			c.Fact("direct_changed:" + mcl)
+		}
+	}
+	if d := cf.Diff(ref, after); d != "" {
+		add("direct:"+mcl+":events-do-not-reproduce-contact:"+d, "replaying the emitted events over the contact before does not reproduce the contact after (differs in %s)\nreplayed: %s\nactual:   %s\nevents: %s", d, ref, after, strings.Join(r.EventTypes, ","))
+	}
+	switch {
+	case changed && !r.Modified:
+		add("direct:"+mcl+":changed-but-reported-unmodified", "the contact changed (%s) but the modifier reported not modified", cf.Diff(before, after))
+	case !changed && r.Modified:
+		add("direct:"+mcl+":unchanged-but-reported-modified", "the contact did not change but the modifier reported modified")
+	}
+	switch {
+	case changed && !emitted:
+		add("direct:"+mcl+":changed-but-no-change-event", "the contact changed (%s) but no change event was emitted", cf.Diff(before, after))
+	case !changed && emitted:
+		add("direct:"+mcl+":unchanged-but-change-event-emitted", "the contact did not change but a change event was emitted (%s)", strings.Join(r.EventTypes, ","))
+	}
+	// second application
+	emitted2 := false
+	for _, t := range r.EventTypes2 {
+		if cf.IsChangeEvent(t) {
+			emitted2 = true
+		}
+	}
+	if r.Modified2 {
+		add("direct:"+mcl+":second-application-reported-modified", "applying the same modifier a second time reported modified again")
+	}
+	if emitted2 {
+		add("direct:"+mcl+":second-application-emitted-change-event", "applying the same modifier a second time emitted %s", strings.Join(r.EventTypes2, ","))
+	}
+	if d := cf.Diff(after, after2); d != "" {
+		add("direct:"+mcl+":second-application-changed-contact:"+d, "applying the same modifier a second time changed the contact (%s)", d)
+	}
+	return ps
+}
+
+func runDirect(c *mc.Ctx) {
+	w, err := cf.NewWorld()
+	if err != nil {
+		c.Violation("harness:world", err.Error(), nil)
+		return
+	}
+	contacts := cf.Contacts(c.Thorough())
+	mods := cf.Modifiers()
+	idx := 0
+	for _, mf := range []int{4, 640} {
+		for ci := range contacts {
+			idx++
+			if !c.Mine(idx) {
+				continue
+			}
+			if c.Expired() {
+				c.Cap("time budget reached in the direct-modifier family")
+				return
+			}
+			for mi := range mods {
+				d := &cf.Direct{Contact: contacts[ci], Modifier: mods[mi], MaxField: mf}
+				c.Inc("evaluations")
+				c.Inc("direct_applications")
+				c.Inc("transitions")
+				c.Inc("states")
+				for _, p := range judgeDirect(c, w, d, true) {
+					c.Violation(p.Key, p.What+"\ncontact: "+mc.JSON(d.Contact)+"\nmodifier: "+mc.JSON(d.Modifier)+fmt.Sprintf(" MaxFieldChars=%d", mf), map[string]any{"space": "direct", "case": d})
+				}
+				if c.WantSample() && ci == 7 && mi%40 == 3 {
+					c.Sample(d)
+				}
+			}
+			c.Inc("distinct_nontrivial")
+		}
+	}
+}
+
+func run(c *mc.Ctx) {
+	runDirect(c)
+	runEngine(c)
+}
+
+func replayFn(c *mc.Ctx, raw json.RawMessage) (string, bool) {
+	var probe struct {
+		Space string `json:"space"`
+	}
+	json.Unmarshal(raw, &probe)
+	if probe.Space == "direct" {
+		var rp struct {
+			Case cf.Direct `json:"case"`
+		}
+		if err := json.Unmarshal(raw, &rp); err != nil {
+			return err.Error(), false
+		}
+		w, err := cf.NewWorld()
+		if err != nil {
+			return err.Error(), false
+		}
+		ps := judgeDirect(c, w, &rp.Case, false)
+		out := "direct: contact=" + mc.JSON(rp.Case.Contact) + " modifier=" + mc.JSON(rp.Case.Modifier)
+		for _, p := range ps {
+			out += "\nPROBLEM " + p.Key + ": " + p.What
+		}
+		return out, len(ps) > 0
+	}
+	return replayEngine(c, raw)
+}
+
+func init() {
+	mc.Register(&mc.Check{
+		ID:    "C03",
+		Level: "model_checking",
+		Rule: "two exhaustively enumerated spaces on the real code. (A) direct: the product of starting contacts (name x language x status x URN list x static groups x wrong stored query-group membership x fields x ticket) x the modifier alphabet (name incl. at/over the limit and multi-byte, language, status, timezone, field values of every type incl. over-long, groups add/remove over all lists <= 2 incl. a query group, urns append/remove/set over all lists <= 2 over 5 URNs incl. invalid and needs-normalising, channel, ticket) x MaxFieldChars {4,640}, each applied twice. " +
+			"(B) engine: flows built from all ordered pairs of contact-changing actions with and without a wait between them x triggers {manual,msg} x starting contacts x resume histories (msg, msg with refreshed contact). Oracle: a reference event applier over the contact JSON replays the emitted events over the contact before and must reproduce the contact after; modified == changed == change-event-emitted; the second application changes and reports nothing. distinct_nontrivial = starting contacts (A) / roots (B).",
+		Assumptions: []string{"group order inside the contact is not compared (membership as a set)", "created_on, uuid and id never change and are not part of the view"},
+		Run:         run,
+		Replay:      replayFn,
+		Budget:      map[string]time.Duration{"quick": 4 * time.Minute, "thorough": 20 * time.Minute},
+		Guards: func(r *mc.Result, tier string) []string {
+			var f []string
+			for _, fact := range []string{"direct_changed:name", "direct_changed:language", "direct_changed:status", "direct_changed:timezone", "direct_changed:field", "direct_changed:groups:add", "direct_changed:groups:remove",
+				"direct_changed:urns:append", "direct_changed:urns:remove", "direct_changed:urns:set", "direct_changed:channel", "direct_changed:ticket", "engine_last_seen_changed", "engine_refreshed"} {
+				if r.Facts[fact] == 0 {
+					f = append(f, "never observed: "+fact)
+				}
+			}
+			return f
+		},
+	})
+}
